@@ -101,4 +101,22 @@ CLAIMS.update({
               'extracted tree model and with the map.'),
         note=COMMON_NOTE + ' The kernel file system is assumed to behave as the tree model (mkdir/openat/rename/unlink); AES-GCM is the identity at this level (C17). Known finding F27 (API listing of non-UTF-8 keys) is reported as KNOWN-FINDING.'),
 })
+CLAIMS.update({
+    'C15': dict(
+        text=('Theorems C15_atomic (for every interleaving of any number of Set/Get/Delete threads on one key, expressed as a schedule over the system-call '
+              'programs of fscache — create private temp file, write, fsync, close, rename over the final name; open final, read; unlink — and for a crash after '
+              'any prefix of it: the final name, when it exists, holds exactly the complete value of one Set whose rename happened (or the initial value), and every '
+              'completed Get returned one such complete value or not-found) and C15_no_partial_value. The run (a) compares the system-call program of each operation, '
+              'obtained with strace from the real backend, with the model\'s programs; (b) cuts a Set at every byte position with RLIMIT_FSIZE in a child process, kills '
+              'writers with SIGKILL, and checks concurrent storms for linearizability with porcupine.'),
+        note=COMMON_NOTE + ' Assumed of the kernel: each system call is atomic, rename replaces atomically, an open descriptor keeps its inode. Durability across power loss (fsync ordering on a real disk) is outside the model: partial there.'),
+    'C17': dict(
+        text=('Theorems over a symbolic AES-GCM (seal/open with the laws of an authenticated cipher as explicit hypotheses): C17_wiring / C17_option_wiring (for every DSN encrypt / '
+              'encrypt_key / environment key and every option key: if encryption is requested, Open fails or the handle encrypts under a key of 16/24/32 bytes — never silently off), '
+              'C17_files (what is written is nonce||seal(key, nonce, value)), C17_roundtrip, C17_tamper (whatever byte string get accepts is exactly nonce||seal(key, nonce, v) for '
+              'the value v returned: any altered, truncated or extended file is an error, never data), C17_short_file_rejected, C17_wrong_key, C17_distinct. The run re-derives the '
+              'real backend's files with an independent AES-GCM computation, scans them for plaintext, applies every single-byte change and truncation, and compares a grid of '
+              'configurations with the extracted wiring model.'),
+        note=COMMON_NOTE + ' That AES-GCM is an authenticated cipher hiding its plaintext, and that crypto/rand nonces do not repeat, are cryptographic assumptions (hypotheses of the theorems): partial in that sense.'),
+})
 NOT_YET = {}
